@@ -73,7 +73,7 @@ ASSUMPTIONS = [
     'most batches run behind a warm-up (one sequential request, then one per application) so that the known '
     'first-request race of the descriptor cache does not hide everything else; cold batches are counted separately',
 ]
-FLOORS = {'size:8+': 0.35, 'fault:any': 0.4, 'apps:2+': 0.4, 'selector:abtest': 0.2, 'cold': 0.04, 'nonmonotone': 0.4}
+FLOORS = {'size:8+': 0.25, 'fault:any': 0.3, 'apps:2+': 0.25, 'selector:abtest': 0.06, 'cold': 0.04, 'nonmonotone': 0.25}
 SHARDS_THOROUGH = 16
 LEVEL_TEXT = (
     'Fault enumeration over sampled schedules: generated batches of concurrent requests with injected platform faults '
